@@ -735,6 +735,44 @@ def m_clone_value(ex, st, callee, args):
     return [(None, ex.deref(st, args[0]))]
 
 
+# ------------------------------------------------------------------ interpreter variables (named cells), for `bin_op_assign`
+def m_load_variable(ex, st, callee, args):
+    """Ctx::load_variable(name) -> Option<PrimitiveFlagsPair>: the variable cell set up by the kernel driver under ("var", name)"""
+    lit = _strlit(ex, st, args[1])
+    if lit is None:
+        raise Inconclusive("load_variable with a non-literal name")
+    key = ("var", lit.data.strip('"'))
+    if key not in st.cells:
+        return [(None, NONE)]
+    return [(None, some(Adt("PrimitiveFlagsPair", None, [Ref(key)])))]
+
+
+def _pair_ref(ex, st, v):
+    v = ex.deref(st, v) if isinstance(v, Ref) else v
+    if isinstance(v, Adt) and v.ty == "PrimitiveFlagsPair":
+        return v.fields[0]
+    raise Inconclusive("expected a variable cell, got %r" % (v,))
+
+
+def m_pair_primitive(ex, st, callee, args):
+    """PrimitiveFlagsPair::primitive() -> GcCellRef<Primitive>: a borrow of the cell's value"""
+    return [(None, Adt("GcCellRef", None, [_pair_ref(ex, st, args[0])]))]
+
+
+def m_gccellref_deref(ex, st, callee, args):
+    v = ex.deref(st, args[0]) if isinstance(args[0], Ref) else args[0]
+    if isinstance(v, Adt) and v.ty == "GcCellRef":
+        return [(None, v.fields[0])]
+    raise Inconclusive("GcCellRef::deref on %r" % (v,))
+
+
+def m_pair_set_primitive(ex, st, callee, args):
+    r = _pair_ref(ex, st, args[0])
+    old = ex.read(st, r.cell, r.path)
+    ex.write(st, r.cell, r.path, args[1])
+    return [(None, old)]
+
+
 def m_effect_ok(ex, st, callee, args):
     """interpreter side effect outside the kernel (variable registration): recorded, returns Ok(())"""
     st.effects.append((callee.split("::")[-1], tuple(ex.deref(st, a) if isinstance(a, Ref) and i > 0 else a for i, a in enumerate(args[1:], 1))))
@@ -793,6 +831,11 @@ def base_models():
     m.add(r"^(std::borrow::)?Cow::<.*>::into_owned$", m_cow_into_owned)
     m.add(r"^<variables::primitive::Primitive as ToOwned>::to_owned$", m_clone_value)
     m.add(r"^context::Ctx::<'_>::register_variable_local$", m_effect_ok)
+    m.add(r"^context::Ctx::<'_>::load_variable$", m_load_variable)
+    m.add(r"^PrimitiveFlagsPair::primitive$", m_pair_primitive)
+    m.add(r"^<GcCellRef<'_, .*> as Deref>::deref$", m_gccellref_deref)
+    m.add(r"^PrimitiveFlagsPair::set_primitive$", m_pair_set_primitive)
+    m.add(r"^<variables::primitive::Primitive as Clone>::clone$", m_clone_value)
     m.add(r"^context::Ctx::<'_>::signal$", m_effect_unit)
     m.add(r"^core::str::<impl str>::parse::<(isize|usize|i32|i64|u32|u64)>$", m_parse_literal)
     m.add(r"^<Box<.*> as (AsRef<.*>|Deref|DerefMut|Borrow<.*>|AsMut<.*>)>::(as_ref|deref|deref_mut|borrow|as_mut)$", m_box_as_ref)
